@@ -15,20 +15,23 @@ global size_of usize == 8;
 spec fn le16_bytes(n: u16) -> Seq<u8> { seq![(n & 0xff) as u8, ((n >> 8) & 0xff) as u8] }
 spec fn le32_bytes(n: u32) -> Seq<u8> { seq![(n & 0xff) as u8, ((n >> 8) & 0xff) as u8, ((n >> 16) & 0xff) as u8, ((n >> 24) & 0xff) as u8] }
 spec fn le64_bytes(n: u64) -> Seq<u8> { le32_bytes((n & 0xffff_ffff) as u32) + le32_bytes((n >> 32) as u32) }
-spec fn le16_val(b: Seq<u8>) -> u16 { (b[0] as u16) | ((b[1] as u16) << 8) }
-spec fn le32_val(b: Seq<u8>) -> u32 { (b[0] as u32) | ((b[1] as u32) << 8) | ((b[2] as u32) << 16) | ((b[3] as u32) << 24) }
-spec fn le64_val(b: Seq<u8>) -> u64 { (le32_val(b.subrange(0, 4)) as u64) | ((le32_val(b.subrange(4, 8)) as u64) << 32) }
+#[verifier::opaque] spec fn le16_val(b: Seq<u8>) -> u16 { (b[0] as u16) | ((b[1] as u16) << 8) }
+#[verifier::opaque] spec fn le32_val(b: Seq<u8>) -> u32 { (b[0] as u32) | ((b[1] as u32) << 8) | ((b[2] as u32) << 16) | ((b[3] as u32) << 24) }
+#[verifier::opaque] spec fn le64_val(b: Seq<u8>) -> u64 { (le32_val(b.subrange(0, 4)) as u64) | ((le32_val(b.subrange(4, 8)) as u64) << 32) }
 
 proof fn lemma_le16_roundtrip(n: u16) ensures le16_val(le16_bytes(n)) == n, le16_bytes(n).len() == 2 {
+    reveal(le16_val);
     let b0 = (n & 0xff) as u8; let b1 = ((n >> 8) & 0xff) as u8;
     assert((b0 as u16) | ((b1 as u16) << 8) == n) by (bit_vector) requires b0 == (n & 0xff) as u8, b1 == ((n >> 8) & 0xff) as u8;
 }
 proof fn lemma_le32_roundtrip(n: u32) ensures le32_val(le32_bytes(n)) == n, le32_bytes(n).len() == 4 {
+    reveal(le32_val);
     let b0 = (n & 0xff) as u8; let b1 = ((n >> 8) & 0xff) as u8; let b2 = ((n >> 16) & 0xff) as u8; let b3 = ((n >> 24) & 0xff) as u8;
     assert((b0 as u32) | ((b1 as u32) << 8) | ((b2 as u32) << 16) | ((b3 as u32) << 24) == n) by (bit_vector)
       requires b0 == (n & 0xff) as u8, b1 == ((n >> 8) & 0xff) as u8, b2 == ((n >> 16) & 0xff) as u8, b3 == ((n >> 24) & 0xff) as u8;
 }
 proof fn lemma_le64_roundtrip(n: u64) ensures le64_val(le64_bytes(n)) == n, le64_bytes(n).len() == 8 {
+    reveal(le64_val);
     let lo = (n & 0xffff_ffff) as u32; let hi = (n >> 32) as u32;
     lemma_le32_roundtrip(lo); lemma_le32_roundtrip(hi);
     assert(le64_bytes(n).subrange(0, 4) =~= le32_bytes(lo));
@@ -707,10 +710,24 @@ uninterp spec fn uncompressed_of(c: CsView, lg_k: u8, num_coupons: u32) -> Uncom
 spec fn cs_of(b: Seq<u8>) -> CsView {
     CsView { table: fld_table(b), table_words: fld_sv_len(b) as int, num_entries: fld_num_sv(b), window: fld_window(b), window_words: fld_w_len(b) as int }
 }
-// what the decompressor's debug_asserts demand of the flags, per flavor
+// What the decompressor needs from the PARSER in order not to panic / over-allocate (read off its body), clause by clause:
+// debug_assert!s of uncompress_*_flavor; in release `words[0]` of an empty vec is read
 spec fn cs_flavor_ok(fl: Flavor, c: CsView) -> bool {
     &&& (fl is Sparse || fl is Hybrid) ==> c.window.len() == 0 && c.table.len() > 0
     &&& (fl is Pinned || fl is Sliding) ==> c.window.len() > 0 && (c.num_entries > 0 ==> c.table.len() > 0)
+}
+// `k + num_pairs` (u32) in uncompress_surprising_values
+spec fn cs_pairs_u32_ok(fl: Flavor, c: CsView, lg_k: u8) -> bool { !(fl is Empty) ==> pow2(lg_k as nat) + c.num_entries <= 0xffff_ffff }
+// `vec![0; num_pairs]` and the decode loop are driven by table_num_entries; every pair consumes at least 2 bits of table_data
+spec fn cs_alloc_pairs_ok(fl: Flavor, c: CsView) -> bool { !(fl is Empty) ==> 2 * c.num_entries <= 32 * c.table_words }
+// `window.resize(k, 0)` and the decode loop: every window byte consumes at least 1 bit of window_data (`words[*word_index]` is unchecked)
+spec fn cs_window_bits_ok(fl: Flavor, c: CsView, lg_k: u8) -> bool { (fl is Pinned || fl is Sliding) ==> pow2(lg_k as nat) <= 32 * c.window_words }
+// `assert!(offset <= 56)` in uncompress_sliding_flavor
+spec fn cs_offset_ok(fl: Flavor, c: CsView, lg_k: u8, num_coupons: u32) -> bool { fl is Sliding && c.num_entries > 0 ==> dco(lg_k, num_coupons) <= 56 }
+#[verifier::opaque]
+spec fn uncompress_pre(c: CsView, lg_k: u8, num_coupons: u32) -> bool {
+    let fl = flavor_spec(lg_k, num_coupons);
+    cs_flavor_ok(fl, c) && cs_pairs_u32_ok(fl, c, lg_k) && cs_alloc_pairs_ok(fl, c) && cs_window_bits_ok(fl, c, lg_k) && cs_offset_ok(fl, c, lg_k, num_coupons)
 }
 
 impl CompressedState {
@@ -735,16 +752,7 @@ impl CompressedState {
       requires
         4 <= lg_k <= 26,
         /*@C14.cpc.uncompress.words*/ self.table_data_words <= self.table_data@.len() && self.window_data_words <= self.window_data@.len(),
-        // debug_assert!s of uncompress_*_flavor; in release `words[0]` of an empty vec is read
-        /*@C14.cpc.uncompress.flags_vs_flavor*/ cs_flavor_ok(flavor_spec(lg_k, num_coupons), self.cview()),
-        // `k + num_pairs` (u32) in uncompress_surprising_values
-        /*@C14.cpc.uncompress.pairs_u32*/ !(flavor_spec(lg_k, num_coupons) is Empty) ==> pow2(lg_k as nat) + self.table_num_entries <= 0xffff_ffff,
-        // `vec![0; num_pairs]` and the decode loop are driven by table_num_entries; every pair consumes at least 2 bits of table_data
-        /*@C14.cpc.uncompress.alloc_pairs*/ !(flavor_spec(lg_k, num_coupons) is Empty) ==> 2 * self.table_num_entries <= 32 * self.table_data_words,
-        // every window byte consumes at least 1 bit of window_data (`words[*word_index]` is unchecked)
-        /*@C14.cpc.uncompress.window_bits*/ (flavor_spec(lg_k, num_coupons) is Pinned || flavor_spec(lg_k, num_coupons) is Sliding) ==> pow2(lg_k as nat) <= 32 * self.window_data_words,
-        // `assert!(offset <= 56)` in uncompress_sliding_flavor
-        /*@C14.cpc.uncompress.offset*/ flavor_spec(lg_k, num_coupons) is Sliding && self.table_num_entries > 0 ==> dco(lg_k, num_coupons) <= 56,
+        /*@C14.cpc.uncompress.pre*/ uncompress_pre(self.cview(), lg_k, num_coupons),
       ensures
         r == uncompressed_of(self.cview(), lg_k, num_coupons),
         r.table.wf(), r.table.num_valid_bits == 6 + lg_k,
@@ -964,8 +972,6 @@ impl CpcSketch {
         /*@C14.cpc.rejects_ranges*/ r is Ok ==> cpc_ranges_ok(bytes@),
         /*@C14.cpc.rejects_seed*/ r is Ok ==> fld_seed_hash(bytes@) == seed_hash_spec(seed),
         /*@C13.cpc.pre_ints_as_checked*/ r is Ok ==> cpc_pre_ints_as_checked(bytes@),
-        // the format: fields after the header are present iff the sketch is non-empty
-        /*@C13.cpc.nonempty_flags*/ r is Ok ==> cpc_nonempty_ok(bytes@),
         /*@C13.cpc.decodes*/ r is Ok && cpc_nonempty_ok(bytes@) ==> cpc_decode(bytes@) is Some,
         /*@C13.cpc.fields*/ r matches Ok(s) ==> s.lg_k == bytes@[3] && s.first_interesting_column == bytes@[4] && s.seed_hash == fld_seed_hash(bytes@) && s.seed == seed
             && s.num_coupons == fld_num_coupons(bytes@) && s.merge_flag == !f_hip(bytes@),
@@ -975,19 +981,17 @@ impl CpcSketch {
               s.surprising_value_table->0 == u.table && s.sliding_window == u.window }),
         /*@C13.cpc.header_spec*/ r matches Ok(s) ==> cpc_header_spec(bytes@) == Some(s.hdr()),
         /*@C13.cpc.accepts*/ cpc_accepts(bytes@, seed) ==> r is Ok,
+        /*@C13.cpc.delivers*/ r matches Ok(s) ==> deser_delivers(bytes@, seed, s),
         /*@C14.cpc.wf.lgk*/ r matches Ok(s) ==> s.wf_lgk(),
         /*@C14.cpc.wf.window_len*/ r matches Ok(s) ==> s.wf_window_len(),
         /*@C14.cpc.wf.table*/ r matches Ok(s) ==> s.wf_table(),
         /*@C14.cpc.wf.rows*/ r matches Ok(s) ==> s.wf_rows(),
         /*@C14.cpc.wf.empty*/ r matches Ok(s) ==> s.wf_empty(),
         /*@C14.cpc.wf.nvb*/ r matches Ok(s) ==> s.wf_nvb(),
-        /*@C14.cpc.wf.sparse_count*/ r matches Ok(s) ==> s.wf_sparse_count(),
         /*@C14.cpc.wf.windowed*/ r matches Ok(s) ==> (s.windowed() <==> 32 * (s.num_coupons as int) >= 3 * s.k()),
-        // NOT validated by the parser (known findings): numCoupons is unbounded, firstInterestingColumn is only checked <= 63
-        /*@C14.cpc.wf.offset*/ r matches Ok(s) ==> s.wf_offset(),
-        /*@C14.cpc.wf.window_cols*/ r matches Ok(s) ==> s.wf_window_cols(),
-        /*@C14.cpc.wf.thresholds*/ r matches Ok(s) ==> s.thresholds(),
-        /*@C14.cpc.wf.fic*/ r matches Ok(s) ==> s.fic_ok(),
+        /*@C13.cpc.offset*/ r matches Ok(s) ==> (dco(s.lg_k, s.num_coupons) <= 255 ==> s.window_offset == dco(s.lg_k, s.num_coupons)),
+        /*@C13.cpc.sparse_entries*/ r matches Ok(s) ==> (flavor_spec(s.lg_k, s.num_coupons) is Sparse ==> s.surprising_value_table->0.num_items == fld_num_sv(bytes@)),
+        /*@C13.cpc.window_cols*/ r matches Ok(s) ==> (dco(s.lg_k, s.num_coupons) <= 56 ==> s.wf_window_cols()),
     {
         let ghost b = bytes@;
         let ghost mut pos: int = 0;
@@ -1240,7 +1244,6 @@ impl CpcWrapper {
       ensures
         /*@C13.cpc.wrapper.accepts*/ /*@C14.cpc.wrapper.rejects*/ r is Ok <==> cpc_header_spec(bytes@) is Some,
         /*@C13.cpc.wrapper.fields*/ r matches Ok(w) ==> cpc_header_spec(bytes@) == Some(w.hdr()),
-        /*@C13.cpc.wrapper.nonempty_flags*/ r is Ok ==> cpc_nonempty_ok(bytes@),
     {
         let ghost b = bytes@;
         let ghost mut pos: int = 0;
@@ -1365,6 +1368,108 @@ proof fn lemma_wrapper_agrees(b: Seq<u8>, s: CpcSketch, w: CpcWrapper, wr_ok: bo
            wr_ok ==> cpc_header_spec(b) == Some(w.hdr()),                      // CpcWrapper::new: C13.cpc.wrapper.fields
   ensures /*@C13.cpc.wrapper_agrees*/ wr_ok && w.lg_k == s.lg_k && w.merge_flag == s.merge_flag && w.num_coupons == s.num_coupons && w.hip_est_accum == s.hip_est_accum
 {
+}
+
+
+// =====================================================================================================================
+// OBLIGATIONS OF THE PARSER THAT ARE NOT DISCHARGED (known findings; each lemma below FAILS on the current code).
+// `cpc_accepts(b, seed)` is exactly what deserialize_with_seed has checked when it calls `uncompress` (C13.cpc.accepts, C14.cpc.rejects_*,
+// C13.cpc.pre_ints_as_checked), and `deser_delivers(b, seed, s)` is everything it is PROVED to deliver about an accepted sketch (C13.cpc.delivers).
+// Each lemma states one conjunct of (a) the format spec, (b) the decompressor's precondition `uncompress_pre` at the real call site
+// (C14.cpc.uncompress.pre), (c) the sketch invariant CpcSketch::wf() of contracts/cpc_update.rs -- that the parser does NOT establish.
+// =====================================================================================================================
+spec fn deser_delivers(b: Seq<u8>, seed: u64, s: CpcSketch) -> bool {
+    &&& cpc_accepts(b, seed)
+    &&& s.lg_k == b[3] && s.first_interesting_column == b[4] && s.num_coupons == fld_num_coupons(b) && s.seed == seed && s.seed_hash == seed_hash_spec(seed)
+    &&& dco(s.lg_k, s.num_coupons) <= 255 ==> s.window_offset == dco(s.lg_k, s.num_coupons)
+    &&& s.wf_lgk() && s.wf_window_len() && s.wf_table() && s.wf_rows() && s.wf_empty() && s.wf_nvb()
+    &&& s.windowed() <==> 32 * (s.num_coupons as int) >= 3 * s.k()
+    &&& dco(s.lg_k, s.num_coupons) <= 56 ==> s.wf_window_cols()
+    &&& flavor_spec(s.lg_k, s.num_coupons) is Sparse ==> s.surprising_value_table->0.num_items == fld_num_sv(b)
+}
+// (a) the format: the fields after the header are present iff the sketch is non-empty.  Both readers accept flags HAS_TABLE / HAS_WINDOW with
+//     numCoupons == 0 and preInts == 2 (make_preamble_ints keys on numCoupons, the field layout on the flags).
+proof fn c13_cpc_nonempty_flags(b: Seq<u8>, seed: u64)
+  requires cpc_accepts(b, seed)
+  ensures /*@C13.cpc.nonempty_flags*/ cpc_nonempty_ok(b)
+{
+}
+proof fn c13_cpc_wrapper_nonempty_flags(b: Seq<u8>)
+  requires cpc_header_spec(b) is Some
+  ensures /*@C13.cpc.wrapper.nonempty_flags*/ cpc_nonempty_ok(b)
+{
+}
+// (b) the five conjuncts of uncompress_pre
+proof fn c14_cpc_uncompress_flags_vs_flavor(b: Seq<u8>, seed: u64)
+  requires cpc_accepts(b, seed)
+  ensures /*@C14.cpc.uncompress.flags_vs_flavor*/ cs_flavor_ok(flavor_spec(b[3], fld_num_coupons(b)), cs_of(b))
+{
+}
+proof fn c14_cpc_uncompress_pairs_u32(b: Seq<u8>, seed: u64)
+  requires cpc_accepts(b, seed)
+  ensures /*@C14.cpc.uncompress.pairs_u32*/ cs_pairs_u32_ok(flavor_spec(b[3], fld_num_coupons(b)), cs_of(b), b[3])
+{
+}
+proof fn c14_cpc_uncompress_alloc_pairs(b: Seq<u8>, seed: u64)
+  requires cpc_accepts(b, seed)
+  ensures /*@C14.cpc.uncompress.alloc_pairs*/ cs_alloc_pairs_ok(flavor_spec(b[3], fld_num_coupons(b)), cs_of(b))
+{
+}
+proof fn c14_cpc_uncompress_window_bits(b: Seq<u8>, seed: u64)
+  requires cpc_accepts(b, seed)
+  ensures /*@C14.cpc.uncompress.window_bits*/ cs_window_bits_ok(flavor_spec(b[3], fld_num_coupons(b)), cs_of(b), b[3])
+{
+}
+proof fn c14_cpc_uncompress_offset(b: Seq<u8>, seed: u64)
+  requires cpc_accepts(b, seed)
+  ensures /*@C14.cpc.uncompress.offset*/ cs_offset_ok(flavor_spec(b[3], fld_num_coupons(b)), cs_of(b), b[3], fld_num_coupons(b))
+{
+}
+// (c) the clauses of CpcSketch::wf() that no check of the parser implies: numCoupons is unbounded (so window_offset, a u8 truncation of
+//     determine_correct_offset, can exceed 56 or disagree with the thresholds), firstInterestingColumn is only checked <= 63, and the sparse item
+//     count relies on the flags agreeing with the flavor
+proof fn c14_cpc_wf_offset(b: Seq<u8>, seed: u64, s: CpcSketch)
+  requires deser_delivers(b, seed, s)
+  ensures /*@C14.cpc.wf.offset*/ s.wf_offset()
+{
+}
+proof fn c14_cpc_wf_window_cols(b: Seq<u8>, seed: u64, s: CpcSketch)
+  requires deser_delivers(b, seed, s)
+  ensures /*@C14.cpc.wf.window_cols*/ s.wf_window_cols()
+{
+}
+proof fn c14_cpc_wf_thresholds(b: Seq<u8>, seed: u64, s: CpcSketch)
+  requires deser_delivers(b, seed, s)
+  ensures /*@C14.cpc.wf.thresholds*/ s.thresholds()
+{
+}
+proof fn c14_cpc_wf_fic(b: Seq<u8>, seed: u64, s: CpcSketch)
+  requires deser_delivers(b, seed, s)
+  ensures /*@C14.cpc.wf.fic*/ s.fic_ok()
+{
+}
+proof fn c14_cpc_wf_sparse_count(b: Seq<u8>, seed: u64, s: CpcSketch)
+  requires deser_delivers(b, seed, s)
+  ensures /*@C14.cpc.wf.sparse_count*/ s.wf_sparse_count()
+{
+}
+// ... and these are ALL the missing clauses: with a bounded numCoupons and consistent flags only fic_ok remains (this lemma verifies)
+proof fn c14_cpc_wf_complete(b: Seq<u8>, seed: u64, s: CpcSketch)
+  requires deser_delivers(b, seed, s), dco(s.lg_k, s.num_coupons) <= 56, cs_flavor_ok(flavor_spec(s.lg_k, s.num_coupons), cs_of(b)), s.fic_ok()
+  ensures /*@C14.cpc.wf*/ s.wf()
+{
+    lemma_k_bound(s.lg_k);
+    let k = s.k(); let c = s.num_coupons as int; let off = s.window_offset as int;
+    lemma_dco_small(s.lg_k, s.num_coupons);
+    if 8 * c >= 19 * k {
+        let t = 8 * c - 19 * k;
+        assert(off == t / (8 * k));
+        assert(off * (8 * k) <= t < (off + 1) * (8 * k)) by (nonlinear_arith) requires off == t / (8 * k), k > 0, t >= 0;
+        assert((27 + 8 * off) * k == 19 * k + (off + 1) * (8 * k)) by (nonlinear_arith);
+        assert(off > 0 ==> (27 + 8 * (off - 1)) * k == 19 * k + off * (8 * k)) by (nonlinear_arith);
+    } else {
+        assert((27 + 8 * off) * k == 27 * k) by (nonlinear_arith) requires off == 0;
+    }
 }
 
 }
